@@ -12,6 +12,7 @@ request histories: no bound on sizes or values.
 import GemseoVerif.Lemmas.C14
 import GemseoVerif.Lemmas.C14Count
 import GemseoVerif.Lemmas.C14Session
+import GemseoVerif.Lemmas.C14Custom
 
 namespace GV.C14
 open GV GV.C02
@@ -773,6 +774,11 @@ theorem session_refines_spec (tol : Rat) (s : Session) (hs : s.cds.Inv) (ops : L
 
 /-- In the specification the design space only changes through the edits (C02 `DS.apply`): a DOE
     gives it back as it was (switch restored), a query does not touch it. -/
+theorem spec_doe_ds (t : Spec) (exec : Bool) (r : Req) : (t.doe exec r).1.ds = t.ds := by
+  cases exec
+  · simp [Spec.doe, integer_switch_restored]
+  · simp [Spec.doe, integer_switch_restored_execute]
+
 theorem spec_design_space (tol : Rat) (ops : List SOp) : ∀ t : Spec,
     (Spec.run tol t ops).1.ds =
       DS.run tol t.ds (ops.filterMap (fun o => match o with | .edit op => some op | _ => none)) := by
@@ -786,10 +792,8 @@ theorem spec_design_space (tol : Rat) (ops : List SOp) : ∀ t : Spec,
     | edit op => simp [Spec.step, DS.run]
     | query u => simp [Spec.step]
     | newLib => simp [Spec.step]
-    | doe exec r =>
-      cases exec
-      · simp [Spec.step, integer_switch_restored]
-      · simp [Spec.step, integer_switch_restored_execute]
+    | doe exec r => simp [Spec.step, spec_doe_ds]
+    | custom exec cs => simp [Spec.step, spec_doe_ds]
 
 /-- **A DOE after any history** is the DOE of a new library state `t.lib` on the variables as they
     are now (`t.ds` = the initial variables after the edits of the history, `spec_design_space`), and
@@ -803,11 +807,9 @@ theorem doe_after_history (tol : Rat) (s : Session) (hs : s.cds.Inv) (ops : List
   obtain ⟨⟨_, h2, _⟩, h4⟩ := Session.step_sim tol _ _ hsim (.doe exec r)
   refine ⟨?_, ?_⟩
   · rw [h4]
-    cases exec <;> simp [Spec.step]
+    cases exec <;> simp [Spec.step, Spec.doe]
   · rw [h2]
-    cases exec
-    · simp [Spec.step, integer_switch_restored]
-    · simp [Spec.step, integer_switch_restored_execute]
+    simp [Spec.step, spec_doe_ds]
 
 /-- `execute` generates what `compute_doe` returns (valid settings, no unit sampling). -/
 theorem execute_generates_compute_doe (d : DS) (lib : Lib) (r : Req) (hu : r.unitSampling = false)
@@ -878,6 +880,176 @@ theorem doe_history_independent (tol : Rat) (s1 s2 : Session) (h1 : s1.cds.Inv) 
   cases exec
   · simp only [Bool.false_eq_true, if_false]; rw [a]
   · simp only [if_true]; rw [b]
+
+/-! ## 8. CustomDOE: every documented form of `samples`, every key order
+
+`samples` may be a 2-D array (or a file), a dictionary of 2-D arrays, or a list of dictionaries of 1-D
+arrays.  The dictionaries are written by the user in *their* key order; the design of experiments is
+"expressed in the design space's variable order". -/
+
+/-- `cs` is a way of writing the samples `X` (rows in the design-space order): the array itself, or
+    its dictionary form(s) with the keys in any order. -/
+def StandsFor (d : DS) : CustomSamples → Matrix → Prop
+  | .array m, X => m = X
+  | .dict cols, X => DictStandsFor d cols X
+  | .dicts rows, X => DictsStandFor d rows X
+
+/-- **The key order of a dictionary cannot be observed** by `convert_dict_to_array`: two dictionaries
+    with the same entries (distinct keys) in different orders are converted to the same array. -/
+theorem custom_samples_key_order (d : DS) (m m' : List (String × List Rat)) (hk : (m.map (·.1)).Nodup)
+    (hp : m.Perm m') : d.dictToArray m = d.dictToArray m' := dictToArray_perm d m m' hk hp
+
+/-- **Samples given by names are expressed in the design-space variable order**, for every design
+    space with distinct variable names, every number of samples, every form and every key order (one
+    order for a dictionary of 2-D arrays, one order *per sample* for a list of dictionaries): the array
+    CustomDOE works with is the matrix whose row `i` is the concatenation of the blocks of sample `i` in
+    the order of the variables of the design space. -/
+theorem custom_samples_variable_order (d : DS) (hn : d.names.Nodup) (cs : CustomSamples) (X : Matrix)
+    (hX : ∀ x ∈ X, x.length = d.dimension) (h : StandsFor d cs X) : cs.toMatrix d = X := by
+  cases cs with
+  | array m => exact h
+  | dict cols => exact dict_toMatrix d hn cols X hX h
+  | dicts rows => exact dicts_toMatrix d hn rows X hX h
+
+/-- The hypothesis `StandsFor` is closed under reordering the keys of a dictionary of 2-D arrays, and
+    contains the canonical dictionary `colsOf d X` (variable ↦ matrix of its blocks). -/
+theorem custom_dict_forms (d : DS) (hne : d.names ≠ []) (X : Matrix) (cols : List (String × Matrix))
+    (hp : (colsOf d X).Perm cols) (hk : ((colsOf d X).map (·.1)).Nodup) :
+    StandsFor d (.dict cols) X :=
+  dictStandsFor_perm d (colsOf d X) cols X hk hp (colsOf_standsFor d hne X)
+
+theorem setIntNorm_dimension (d : DS) (b : Bool) : (d.setIntNorm b).dimension = d.dimension := rfl
+
+/-- **CustomDOE returns the samples it is given, in the design-space variable order**, through the
+    whole pipeline (`compute_doe` and `execute`): for samples inside the bounds and integral on the
+    integer variables, written in any documented form with any key order. -/
+theorem custom_doe_returns_given_samples (d : DS) (hl : LenOk d) (hn : d.names.Nodup) (lib : Lib)
+    (cs : CustomSamples) (X : Matrix) (hv : ∀ x ∈ X, List.Forall₂ ValidComp (comps d) x)
+    (h : StandsFor d cs X) :
+    (computeDoe d lib (customReq d cs)).result = .ok X ∧
+    (preRun d lib (customReq d cs)).result = .ok X ∧
+    (preRun d lib (customReq d cs)).lib.samples = X ∧
+    (computeDoe d lib (customReq d cs)).ds = d := by
+  have hdim : ∀ x ∈ X, x.length = d.dimension := by
+    intro x hx
+    have := (hv x hx).length_eq
+    rw [comps_length d hl] at this
+    exact this.symm
+  have hm := custom_samples_variable_order d hn cs X hdim h
+  have hall : (X.all fun row => row.length == (d.setIntNorm true).dimension) = true := by
+    rw [List.all_eq_true]
+    intro x hx
+    simpa [setIntNorm_dimension] using hdim x hx
+  have hround : List.map ((d.setIntNorm true).unnormalizeVect true)
+      (List.map ((d.setIntNorm true).normalizeVect true) X) = X := by
+    rw [List.map_map]
+    conv_rhs => rw [← List.map_id X]
+    apply List.map_congr_left
+    intro x hx
+    exact custom_doe_identity d hl x (hv x hx)
+  have hgen : ∀ l : Lib, generate (d.setIntNorm true) l (customReq d cs) =
+      (l, .ok (X.map ((d.setIntNorm true).normalizeVect true))) := by
+    intro l
+    simp only [generate, customReq, Bool.false_eq_true, if_false, hm, if_true, hall]
+  refine ⟨?_, ?_, ?_, integer_switch_restored d lib _⟩
+  · show (computeBody (enter d (!(customReq d cs).unitSampling && !d.intNorm)) lib (customReq d cs)).2 = _
+    have : (!(customReq d cs).unitSampling && !d.intNorm) = !d.intNorm := by simp [customReq]
+    rw [this, enter_eq]
+    unfold computeBody
+    rw [hgen lib]
+    simp [customReq, hround]
+  · show (preRunBody (enter d (!d.intNorm)) lib (customReq d cs)).2 = _
+    rw [enter_eq]
+    unfold preRunBody
+    rw [hgen lib]
+    simp [customReq, hround]
+  · show (preRunBody (enter d (!d.intNorm)) lib (customReq d cs)).1.samples = _
+    rw [enter_eq]
+    unfold preRunBody
+    rw [hgen lib]
+    simp [customReq, hround]
+
+/-- **…on a design-space object that was used and edited before**: after any history of edits,
+    queries and DOEs, a CustomDOE whose samples are written (in any form and key order) for the
+    variables as they are now returns these samples in the current variable order. -/
+theorem custom_doe_after_history (tol : Rat) (s : Session) (hs : s.cds.Inv) (ops : List SOp) (exec : Bool)
+    (cs : CustomSamples) (X : Matrix) (d : DS) (hd : (Spec.run tol ⟨s.cds.ds, s.lib⟩ ops).1.ds = d)
+    (hl : LenOk d) (hn : d.names.Nodup) (hv : ∀ x ∈ X, List.Forall₂ ValidComp (comps d) x)
+    (h : StandsFor d cs X) :
+    ((Session.run tol s ops).1.step tol (.custom exec cs)).2 = .doe (.ok X) := by
+  obtain ⟨hsim, _⟩ := Session.run_sim tol ops s ⟨s.cds.ds, s.lib⟩ ⟨hs, rfl, rfl⟩
+  obtain ⟨_, h4⟩ := Session.step_sim tol _ _ hsim (.custom exec cs)
+  rw [h4]
+  simp only [Spec.step, Spec.doe, hd]
+  obtain ⟨a, b, _, _⟩ := custom_doe_returns_given_samples d hl hn (Spec.run tol ⟨s.cds.ds, s.lib⟩ ops).1.lib cs X hv h
+  cases exec
+  · simp only [Bool.false_eq_true, if_false]; rw [a]
+  · simp only [if_true]; rw [b]
+
+/-! ## 9. The process: nothing sampled before can be observed
+
+`Proc` is what GEMSEO's wrappers leave in the process between two generations (the state of
+`openturns.RandomGenerator`); the sequence objects, engines and `RandomState`s are created for the call.
+Hence "the same algorithm, settings and seed always generate the same samples" — whatever was generated
+before in the process, by this algorithm or by another one, in this dimension or another one, with more
+or fewer samples. -/
+
+/-- **The state of the process cannot be observed**: the unit samples of a generation are the same
+    from any two process states. -/
+theorem process_state_unobservable (w : ThirdParty) (p p' : Proc) (c : PCall) (seed : Int) :
+    (p.call w c seed).2 = (p'.call w c seed).2 := by
+  unfold Proc.call
+  cases c.source <;> rfl
+
+/-- **Every generation of a history returns what it returns in a new process** (`{}`: nothing sampled
+    yet), for every history of generations by any algorithms, dimensions, sizes and seeds. -/
+theorem process_history_outputs (w : ThirdParty) (hist : List (PCall × Int)) : ∀ p : Proc,
+    (Proc.run w p hist).2 = hist.map (fun ck => (({} : Proc).call w ck.1 ck.2).2) := by
+  induction hist with
+  | nil => intro p; rfl
+  | cons ck rest ih =>
+    intro p
+    obtain ⟨c, k⟩ := ck
+    simp only [Proc.run, List.map_cons]
+    rw [ih, process_state_unobservable w p {} c k]
+
+/-- **Same algorithm, settings, dimension, size and seed after two arbitrary process histories ⇒ same
+    unit samples.** -/
+theorem process_history_independent (w : ThirdParty) (p p' : Proc) (hist hist' : List (PCall × Int))
+    (c : PCall) (seed : Int) :
+    ((Proc.run w p hist).1.call w c seed).2 = ((Proc.run w p' hist').1.call w c seed).2 :=
+  process_state_unobservable w _ _ c seed
+
+/-- A low-discrepancy sequence generated for the call starts at its first point: `n` points are the
+    first `n` of the `m ≥ n` points another call returns (this — and only this — is what makes a
+    "longest sequence so far" memo per **class and dimension** unobservable). -/
+theorem sequence_prefix (w : ThirdParty) (p p' : Proc) (algo dim n m : Nat) (seed seed' : Int) (h : n ≤ m) :
+    (p.call w ⟨.otSequence, algo, dim, n⟩ seed).2 = ((p'.call w ⟨.otSequence, algo, dim, m⟩ seed').2).take n := by
+  simp only [Proc.call, SeqObj.generate, Nat.zero_add]
+  rw [← List.map_take, List.take_range, Nat.min_eq_left h]
+
+/-- The sampler seen by the pipeline (`Req.sampler`) does not depend on the process state. -/
+theorem procSampler_independent (w : ThirdParty) (p p' : Proc) (c : PCall) :
+    procSampler w p c = procSampler w p' c := by
+  funext eff
+  simp only [procSampler]
+  rw [process_state_unobservable w p p' c eff]
+
+/-- **Same algorithm, settings and seed ⇒ same samples, whatever happened before** to the
+    design-space objects (DOEs, queries, edits ending with the same variables), to the library objects
+    (seed counters, earlier results) **and in the process** (generations by any algorithms, before and
+    between): `compute_doe` / `execute` with an explicit seed (or an unseeded algorithm) after two
+    arbitrary triples of histories return the same samples. -/
+theorem doe_process_history_independent (tol : Rat) (w : ThirdParty) (p1 p2 : Proc)
+    (hist1 hist2 : List (PCall × Int)) (c : PCall) (s1 s2 : Session) (h1 : s1.cds.Inv) (h2 : s2.cds.Inv)
+    (ops1 ops2 : List SOp) (exec : Bool) (r : Req) (hseed : r.usesSeed = false ∨ ∃ k, r.seed = some k)
+    (hsame : (Spec.run tol ⟨s1.cds.ds, s1.lib⟩ ops1).1.ds = (Spec.run tol ⟨s2.cds.ds, s2.lib⟩ ops2).1.ds) :
+    ((Session.run tol s1 ops1).1.step tol
+        (.doe exec { r with sampler := procSampler w (Proc.run w p1 hist1).1 c })).2 =
+    ((Session.run tol s2 ops2).1.step tol
+        (.doe exec { r with sampler := procSampler w (Proc.run w p2 hist2).1 c })).2 := by
+  rw [procSampler_independent w (Proc.run w p1 hist1).1 (Proc.run w p2 hist2).1 c]
+  exact doe_history_independent tol s1 s2 h1 h2 ops1 ops2 exec _ hseed hsame
 
 /-! ## Non-vacuity -/
 
@@ -957,5 +1129,36 @@ example : (Session.run 0 exObj1 [.doe false exReq2, .edit (.rename "x" "w")]).1.
 example : (Session.run 0 exObj1 [.doe false exReq2, .edit (.setUb "n" [some 12]), .query [1/2, 1/2], .doe false exReq2]).2
     = [.doe (.ok [[1/4, 7], [3/2, 3]]), .none, .vec [3/2, 7], .doe (.ok [[1/4, 10], [3/2, 3]])] := by decide +kernel
 example : boundedOk (Spec.run 0 ⟨exObj.cds.ds, exObj.lib⟩ (exHist.take 3)).1.ds = true := by decide +kernel
+
+-- section 8: the design space (a float, k integer of size 2, b float) and two samples written as a list of
+-- dictionaries in two different key orders, and as a dictionary of 2-D arrays in a third order
+def exX : Matrix := [[5, -2, 3, 3/4], [-3, 6, 1, 1/2]]
+def exDicts : CustomSamples :=
+  .dicts [[("b", [3/4]), ("k", [-2, 3]), ("a", [5])], [("k", [6, 1]), ("a", [-3]), ("b", [1/2])]]
+def exDict : CustomSamples := .dict [("k", [[-2, 3], [6, 1]]), ("b", [[3/4], [1/2]]), ("a", [[5], [-3]])]
+example : exDicts.toMatrix exDS = exX ∧ exDict.toMatrix exDS = exX := by decide +kernel
+example : StandsFor exDS exDicts exX := by
+  refine .cons ?_ (.cons ?_ .nil) <;> decide +kernel
+example : colsOf exDS exX = [("a", [[5], [-3]]), ("k", [[-2, 3], [6, 1]]), ("b", [[3/4], [1/2]])] := by
+  decide +kernel
+example : StandsFor exDS exDict exX :=
+  custom_dict_forms exDS (by decide +kernel) exX _ (by decide +kernel) (by decide +kernel)
+example : (computeDoe exDS {} (customReq exDS exDicts)).result = .ok exX ∧
+    (preRun exDS {} (customReq exDS exDict)).lib.samples = exX := by decide +kernel
+-- in a session: after `remove a; add a` the variable order is k, b, a — the same dictionaries now give
+-- the columns in that order
+example : ((Session.run 0 ⟨⟨exDS, false, {}⟩, {}⟩
+      [.custom false exDicts, .edit (.remove "a"), .edit (.add ⟨"a", false, [some (-3)], [some 5], none⟩)]).1.step 0
+      (.custom true exDict)).2 = .doe (.ok [[-2, 3, 3/4, 5], [6, 1, 1/2, -3]]) := by decide +kernel
+
+-- section 9: two sequences, a process history "Halton(8) in dimension 2, then Sobol'(3) in dimension 2"
+def exW : ThirdParty :=
+  { sequence := fun cls dim i => List.replicate dim (((i : Rat) + 1) / ((cls : Rat) + 2)),
+    experiment := fun _ dim n rng => ((List.range n).map (fun i => List.replicate dim (((rng.1 : Rat) + i) / 100)), (rng.1, rng.2 + n * dim)),
+    seeded := fun _ dim n k => (List.range n).map (fun i => List.replicate dim (((k : Rat) + i) / 50)),
+    design := fun _ dim n => (List.range n).map (fun i => List.replicate dim ((i : Rat) / n)) }
+example : (Proc.run exW {} [(⟨.otSequence, 0, 2, 8⟩, 1), (⟨.otSequence, 1, 2, 3⟩, 1), (⟨.otGlobal, 5, 2, 2⟩, 7)]).2.drop 1 =
+    [[[1/3, 1/3], [2/3, 2/3], [1, 1]], [[7/100, 7/100], [8/100, 8/100]]] ∧
+    (Proc.run exW {} [(⟨.otSequence, 0, 2, 8⟩, 1), (⟨.otGlobal, 5, 2, 2⟩, 7)]).1.otRng = (7, 4) := by decide +kernel
 
 end GV.C14
